@@ -27,7 +27,7 @@ TECHNIQUE = (
     "model parameters, scores, every result file and the canonicalised FASTA maps"
 )
 RULE = (
-    "history = (dataset seed/size, spectrum key incl. string file names, brew seed, folds 2-4, learner PercolatorModel / "
+    "history = (dataset seed/size, spectrum key incl. string file names, brew seed, folds 2-4, learner PercolatorModel (explicit, or brew's default with model=None) / "
     "LinearSVC / decision tree, worker counts w1 != w2, hash seeds h1 != h2, all permutations of the returned models "
     "(<= 4 folds), optional FASTA for the protein level). Non-trivial: >= 3 folds (non-identity permutations of which "
     "some are not involutions) and h1 != h2. Distinct = distinct canonical JSON."
@@ -54,13 +54,15 @@ def _case(draw, tier):
     w2 = draw(st.sampled_from([w for w in (1, 2, 3, 4, 8) if w != w1]))
     h1 = draw(st.integers(0, 1000))
     h2 = draw(st.integers(1001, 4000000))
+    learner = draw(st.sampled_from(["perc", "perc", "default", "default", "svc", "svc", "tree", "tree", "tree"]))
     return {
         "seed": draw(st.integers(0, 2**31 - 1)),
-        "n_spectra": draw(st.integers(260, 420)),
+        # the default model trains at FDR 0.01 and needs > 100 targets ahead of the first decoy
+        "n_spectra": draw(st.integers(1500, 2200)) if learner == "default" else draw(st.integers(260, 420)),
         "key": draw(st.sampled_from([2, 3, 3, 4])),
         "brew_seed": draw(st.integers(0, 2**31 - 1)),
         "folds": folds,
-        "learner": draw(st.sampled_from(["perc", "svc", "tree"])),
+        "learner": learner,
         "w1": w1,
         "w2": w2,
         "h1": h1,
@@ -143,6 +145,8 @@ def _model(case):
     from sklearn.svm import LinearSVC
     from sklearn.tree import DecisionTreeClassifier
 
+    if case["learner"] == "default":
+        return None  # brew(model=None, rng=seed): the default model must be seeded by brew itself
     if case["learner"] == "perc":
         return mokapot.PercolatorModel(train_fdr=0.2, max_iter=3, rng=case["brew_seed"])
     if case["learner"] == "svc":
@@ -219,6 +223,8 @@ def child_main():
             perms = list(itertools.permutations(range(len(models))))
             if len(perms) > 24:
                 perms = perms[:1] + perms[-23:]
+            if case["learner"] == "default":
+                perms = perms[-2:]  # large datasets: two non-identity orders
             out["perms"] = {}
             if not all(m.is_trained for m in models):
                 perms = []  # brew refuses untrained models by design; nothing to feed back
